@@ -65,7 +65,43 @@ fn case(cfg: &Config, tmp: &std::path::Path, idx: u64, r: &mut Rng, st: &mut Sta
         o.preds = vec![("p".into(), 1), ("hp".into(), 1), ("tp".into(), 1), ("h".into(), 0), ("t".into(), 2), ("th".into(), 1)];
     }
     o.depth = cfg.pick(4, 5);
-    let text = gen_formula(r, &o, o.depth);
+    let mut text = gen_formula(r, &o, o.depth);
+    if r.chance(1, 4) {
+        // a quantifier directly over an implication-like connective whose antecedent holds
+        // everywhere outside a small window: only the values inside the window can serve as
+        // witnesses, so here-part and there-part must agree on ONE value (over the infinite
+        // domain a plain `exists X (p(X) -> q(X))` is true for any value p does not hold of)
+        let x = ["X", "X$i", "N$i"][r.upto(3)];
+        let mut oo = o.clone();
+        oo.vars = vec![match x.find('$') { Some(i) => (x[..i].to_string(), x[i..].to_string()), None => (x.to_string(), String::new()) }];
+        let (da, db) = (1 + r.upto(2) as u32, 1 + r.upto(2) as u32);
+        let a = gen_formula(r, &oo, da);
+        let b = gen_formula(r, &oo, db);
+        // w: outside the window, v: inside the window
+        let (w, v) = match r.below(3) {
+            0 => (format!("{x} != 1 and {x} != 2"), format!("({x} = 1 or {x} = 2)")),
+            1 => (format!("{x} != 0 and {x} != 1 and {x} != 2"), format!("({x} = 0 or {x} = 1 or {x} = 2)")),
+            _ => (format!("not ({x} = 1 or {x} = 2)"), format!("not ({x} != 1 and {x} != 2)")),
+        };
+        let q = ["exists", "exists", "forall"][r.upto(3)];
+        // outside the window the antecedent is true and the consequent false
+        let b = if r.chance(3, 4) { format!("({b}) and {v}") } else { b };
+        let body = match r.below(4) {
+            0 | 1 => format!("({a}) or ({w}) -> {b}"),
+            2 => format!("{b} <- ({a}) or ({w})"),
+            _ => format!("(({a}) or ({w})) <-> ({b})"),
+        };
+        text = match r.below(4) {
+            0 => format!("not {q} {x} ({body})"),
+            1 => format!("{q} {x} ({body}) -> p(0)"),
+            _ => format!("{q} {x} ({body})"),
+        };
+        st.inc("quantifier_over_implication_templates");
+    }
+    if let Ok(t) = std::env::var("AVM_C05_FORMULA") {
+        // debugging aid: check one given formula on many interpretations
+        text = t;
+    }
     let Ok(f) = parse_formula(&text) else {
         st.inc("generator_parse_errors");
         return;
